@@ -22,6 +22,21 @@ pub uninterp spec fn tr_end(r: TextRange) -> nat;
 // lsp-types 0.95: plain constructors
 pub assume_specification [lsp_types::Position::new] (line: u32, character: u32) -> (r: lsp_types::Position) ensures r.line == line, r.character == character;
 pub assume_specification [lsp_types::Range::new] (start: lsp_types::Position, end: lsp_types::Position) -> (r: lsp_types::Range) ensures r.start == start, r.end == end;
+// text-size 1.1.1 (src/range.rs, src/size.rs, src/traits.rs): a TextSize is a u32, a TextRange an ordered pair of them
+pub broadcast axiom fn ax_tr_ordered(r: TextRange) ensures #[trigger] tr_start(r) <= #[trigger] tr_end(r), tr_end(r) <= u32::MAX;
+pub broadcast axiom fn ax_ts_u32(t: TextSize) ensures #[trigger] ts_val(t) <= u32::MAX;
+pub assume_specification [TextRange::len] (r: TextRange) -> (s: TextSize) ensures ts_val(s) == tr_end(r) - tr_start(r);
+pub assume_specification [TextRange::is_empty] (r: TextRange) -> (b: bool) ensures b == (tr_start(r) == tr_end(r));
+pub assume_specification [TextRange::new] (start: TextSize, end: TextSize) -> (r: TextRange)
+    requires ts_val(start) <= ts_val(end) ensures tr_start(r) == ts_val(start), tr_end(r) == ts_val(end);
+pub assume_specification [<u32 as From<TextSize>>::from] (t: TextSize) -> (r: u32) ensures r == ts_val(t);
+pub assume_specification [<usize as From<TextSize>>::from] (t: TextSize) -> (r: usize) ensures r == ts_val(t);
+pub assume_specification [<TextSize as From<u32>>::from] (x: u32) -> (r: TextSize) ensures ts_val(r) == x;
+// (Verus does not let a trait-method impl carry `requires`: the overflow / underflow panic of TextSize arithmetic is NOT modelled)
+pub assume_specification [<TextSize as core::ops::Add>::add] (a: TextSize, b: TextSize) -> (r: TextSize)
+    ensures ts_val(a) + ts_val(b) <= u32::MAX ==> ts_val(r) == ts_val(a) + ts_val(b);
+pub assume_specification [<TextSize as core::ops::Sub>::sub] (a: TextSize, b: TextSize) -> (r: TextSize)
+    ensures ts_val(b) <= ts_val(a) ==> ts_val(r) == ts_val(a) - ts_val(b);
 pub assume_specification [TextRange::start] (r: TextRange) -> (s: TextSize) ensures ts_val(s) == tr_start(r);
 pub assume_specification [TextRange::end] (r: TextRange) -> (s: TextSize) ensures ts_val(s) == tr_end(r);
 }
